@@ -12,6 +12,25 @@ CHECKS = {
          "and recording hash objects; recorded digests of real datasets are compared with independent one-shot digests.",
     note="Digest algorithms (hashlib, xxhash) and CPython file objects are modelled, not verified; streaming law is an explicit hypothesis.",
     ref="DESIGN.md §5 C16"),
+ "C10": dict(
+    technique="Lean 4 proof (invariant over all op lists of the filler model M-FILL) + differential correspondence of the real DatasetFiller on generated write sequences",
+    text="C10_shard_size_bounds, C10_never_close_fails, C10_nonlast_full_or_mdchange, C10_full_except_last, C10_sessions hold for every eps>=1 and every "
+         "interleaving of splits, metadata values, rejected writes and sessions. M-FILL is tied to /repo by replaying the write outcomes observed on the "
+         "real filler (fb/npz/tfrec) through the compiled Lean model and comparing the listing a fresh reader sees.",
+    note="Shard encoders/decoders are used only to count stored examples; writers assumed atomic per example (C18 checks that).",
+    ref="DESIGN.md §5 C10"),
+ "C11": dict(
+    technique="Lean 4 proof (label invariant of M-FILL under value semantics; reference-semantics counterexample by decide) + differential correspondence incl. in-place mutation of the caller's dict",
+    text="C11_md_labels, C11_every_write_listed_once, C11_select_by_md for every write sequence; C11_alias_counterexample is the kernel-checked witness of the "
+         "pinned by-reference defect (fixed in /repo). Correspondence runs mutate and reuse the caller's objects across size boundaries and splits.",
+    note="Examples written with absent metadata are unconstrained (documented retroactive labelling). JSON round-trip of metadata values is C20's concern.",
+    ref="DESIGN.md §5 C11"),
+ "C18": dict(
+    technique="Lean 4 proof (reject_no_trace as a corollary of the conservation invariant of M-FILL; pinned-order witnesses by decide) + differential correspondence with 8 kinds of invalid writes on all formats",
+    text="C18_reject_no_trace, C18_counts_exclude_rejected for all prefixes/suffixes; the oracle demands: must-reject kinds raise, valid writes never fail, "
+         "no orphan shard file, every listed shard decodable, read-back equals accepted writes. Writer-level atomicity is validated on the real writers, not proved.",
+    note="numpy can_cast and TensorFlow feature construction are table-modelled externals; the per-format writer buffers are exercised, not modelled in Lean yet.",
+    ref="DESIGN.md §5 C18"),
 }
 
 def main():
